@@ -4,6 +4,7 @@ EXTRACT = []
 FAMILIES = [
     {"name": "ammdir", "family": "ammdir", "driver": "drv_amm", "n_quick": 1, "n_thorough": 1},
     {"name": "amm", "family": "amm", "driver": "drv_amm", "n_quick": 2500, "n_thorough": 20000, "seeds_thorough": 4},
+    {"name": "ammrt", "family": "ammrt", "driver": "drv_amm", "n_quick": 2500, "n_thorough": 20000, "seeds_thorough": 3},
 ]
 RULE = ("amm: random L1 histories (60 ops each: create/add sym+asym/remove bps+units/swap 3 routes/bucket/epoch/endblock with LPPD and "
         "depth rewards/decommission/policy changes) on the real clp keeper; ammdir: directed histories of DESIGN 4/C02; "
